@@ -24,3 +24,30 @@ Proof.
   subst d. change ((1 # 10000) * (1 # 10000)) with (1 # 100000000).
   apply sdiff_bound; [discriminate|]. unfold Qle. cbn. discriminate.
 Qed.
+
+(** A power-law flux, as a function of ONE of its arguments x (a variable or a parameter; repeated
+    occurrences add up), is  c * v^n  with n = order_of x and c the product of the other factors --
+    so the cells the routines compute for it are instances of [coef_cell_power_law]. *)
+Fixpoint others (x : name) (env : name -> option Q) (fs : plrxn) : Q :=
+  match fs with
+  | [] => 1
+  | (a, n) :: t =>
+      if N.eqb a x then others x env t
+      else match env a with Some v => qpow v n * others x env t | None => others x env t end
+  end.
+
+Lemma prod_factors_monomial x env env' v fs P :
+  (forall a, env' a = if N.eqb a x then Some v else env a) ->
+  prod_factors env fs = Some P ->
+  exists P', prod_factors env' fs = Some P' /\ P' == others x env fs * qpow v (order_of x fs).
+Proof.
+  intros He. revert P. induction fs as [|[a n] t IH]; intros P H; cbn [prod_factors others order_of] in *.
+  - eexists. split; [reflexivity|]. cbn [qpow]. ring.
+  - destruct (env a) as [va|] eqn:Ea; [|discriminate].
+    destruct (prod_factors env t) as [r|]; [|discriminate].
+    destruct (IH r eq_refl) as [r' [Hr' Er']]. rewrite Hr', He.
+    destruct (N.eqb_spec a x) as [->|Hne].
+    + rewrite N.eqb_refl. eexists. split; [reflexivity|]. rewrite Er', qpow_add. ring.
+    + destruct (N.eqb_spec x a) as [E|_]; [congruence|].
+      rewrite Ea. eexists. split; [reflexivity|]. rewrite Er'. ring.
+Qed.
